@@ -32,11 +32,12 @@ class ClauseError(Unsupported):
 # ----------------------------------------------------------------------------------------------- typed values
 class TV:
     """integer value: bit-vector + signedness; arithmetic on TVs is exact (widening)"""
-    __slots__ = ('bv', 'signed')
+    __slots__ = ('bv', 'signed', 'pow2')
 
-    def __init__(self, bv, signed=False):
+    def __init__(self, bv, signed=False, pow2=False):
         self.bv = bv
         self.signed = signed
+        self.pow2 = pow2      # value is known to be a power of two (x % it is a mask, not a division circuit)
 
     @property
     def w(self):
@@ -122,6 +123,8 @@ def tv_udivmod(a, b, mod):
             raise ClauseError('// and % need unsigned operands')
         a, b = a2, b2
     x, y, _ = promote(a, b)
+    if mod and b.pow2:
+        return TV(x & (y - 1), False)
     return TV(z3.URem(x, y) if mod else z3.UDiv(x, y), False)
 
 
@@ -489,8 +492,18 @@ class Translator:
         return self.ctx.lookup('in' if n.id == 'in_' else n.id, self.old)
 
     def ev_BoolOp(self, n):
-        vs = [self.as_bool(self.ev(v)) for v in n.values]
-        return z3.And(*vs) if isinstance(n.op, ast.And) else z3.Or(*vs)
+        is_and = isinstance(n.op, ast.And)
+        vs = []
+        for v in n.values:
+            b = self.as_bool(self.ev(v))
+            sb = z3.simplify(b)
+            # short circuit on concrete values: the rest may not even be well defined (NULL result, ...)
+            if is_and and z3.is_false(sb):
+                return z3.BoolVal(False)
+            if not is_and and z3.is_true(sb):
+                return z3.BoolVal(True)
+            vs.append(b)
+        return z3.And(*vs) if is_and else z3.Or(*vs)
 
     def ev_UnaryOp(self, n):
         if isinstance(n.op, ast.Not):
@@ -547,7 +560,12 @@ class Translator:
             o = {'Eq': '==', 'NotEq': '!=', 'Lt': '<', 'LtE': '<=', 'Gt': '>', 'GtE': '>='}.get(type(op).__name__)
             if o is None:
                 raise ClauseError('comparison ' + type(op).__name__)
-            if self.ctx.is_ptr(left) or self.ctx.is_ptr(right):
+            if self.ctx.is_funcptr(left) or self.ctx.is_funcptr(right):
+                if o not in ('==', '!='):
+                    raise ClauseError('function pointer ordering')
+                same = self.ctx.is_funcptr(left) and self.ctx.is_funcptr(right) and left.name == right.name
+                out.append(z3.BoolVal(same if o == '==' else not same))
+            elif self.ctx.is_ptr(left) or self.ctx.is_ptr(right):
                 if o not in ('==', '!='):
                     raise ClauseError('pointer ordering in clause')
                 e = self.ctx.ptr_same(left, right)
@@ -562,6 +580,11 @@ class Translator:
 
     def ev_IfExp(self, n):
         c = self.as_bool(self.ev(n.test))
+        sc = z3.simplify(c)
+        if z3.is_true(sc):
+            return self.ev(n.body)
+        if z3.is_false(sc):
+            return self.ev(n.orelse)
         a = self.ev(n.body)
         b = self.ev(n.orelse)
         if z3.is_bool(a) or z3.is_bool(b) or isinstance(a, bool) or isinstance(b, bool):
@@ -604,7 +627,7 @@ class Translator:
         lo_s, hi_s = shrink(lo), shrink(hi)
         if z3.is_bv_value(lo_s.bv) and z3.is_bv_value(hi_s.bv) and not lo_s.signed and not hi_s.signed:
             a, b = lo_s.bv.as_long(), hi_s.bv.as_long()
-            if b - a <= 64:
+            if b - a <= 256:
                 inst = [z3.substitute(body, (k, z3.BitVecVal(j, 64))) for j in range(a, b)]
                 if forall:
                     return z3.And(*inst) if inst else z3.BoolVal(True)
@@ -631,7 +654,10 @@ class Translator:
             finally:
                 self.old = saved
         if f == 'implies':
-            return z3.Implies(self.as_bool(self.ev(n.args[0])), self.as_bool(self.ev(n.args[1])))
+            a = self.as_bool(self.ev(n.args[0]))
+            if z3.is_false(z3.simplify(a)):
+                return z3.BoolVal(True)
+            return z3.Implies(a, self.as_bool(self.ev(n.args[1])))
         if f == 'iff':
             return self.as_bool(self.ev(n.args[0])) == self.as_bool(self.ev(n.args[1]))
         m = re.match(r'^([ui])(8|16|32|64|128)$', f)
@@ -658,7 +684,7 @@ class Translator:
             if ee is None:
                 # e wider than needed: clamp (e <= maxbits is the caller's side condition)
                 ee = z3.Extract(w - 1, 0, e.bv)
-            return TV(z3.BitVecVal(1, w) << ee, False)
+            return TV(z3.BitVecVal(1, w) << ee, False, pow2=True)
         if f in ('be', 'le'):
             p = self.ev(n.args[0])
             cnt = self.as_tv(self.ev(n.args[1]))
